@@ -425,7 +425,7 @@ VarianceIdentity ==
 \* the exact sum does not depend on the order of the values (reverse order as witness)
 Rev(s) == [j \in 1..Len(s) |-> s[Len(s) + 1 - j]]
 DSumOrderFree ==
-  ekind.t = "DSum" => PolyEq(st.total, PolySum(Rev(Data(FillsOf(since)))))
+  ekind.t = "DSum" => PolyEq(st.total, PolySum(Rev(<<ekind.dstart>> \o Data(FillsOf(since)))))
 
 Emitted == (Len(h) = MaxLen) => PrintT(ToJson([kind |-> kind, h |-> h]))
 =============================================================================
